@@ -207,5 +207,53 @@ package transform
 //@     invariant C10_consumed_so_far: inputIndex == old(inputIndex) + leafSum(vt, i, tuType())
 //@     invariant valid(val) && vtype(val) == vt && canSet(val) && valid(setVal) && vtype(setVal) == ptrTo(vt) && !canAddr(setVal) && !visnil(setVal)
 //@     iter_ensures C11_set_children_are_not_forgotten: old(anyChildSet) ==> anyChildSet
+//@     invariant C10_nothing_is_written_until_a_leaf_is_set: !anyChildSet ==> rh == old(rh)
 //@   ensures C10_consumes_exactly_the_leaves_below: err == nil ==> next == old(inputIndex) + leafCount(vtype(originalVal), tuType())
 //@   ensures C10_position_never_moves_backwards: next >= old(inputIndex)
+//@   ensures C11_leaf_is_set_iff_its_value_is_set: err == nil && isLeafType(vtype(originalVal), tuType()) ==>
+//@        (anySet <==> !(isNilableKind(kind(vtype(vs[old(inputIndex)].Value))) && kind(vtype(vs[old(inputIndex)].Value)) != UnsafePointer && old(visnil(vs[inputIndex].Value))))
+//@   ensures C10_unset_leaves_write_nothing: err == nil && !anySet ==> rh == old(rh)
+//@   ensures C10_parent_pointer_is_allocated_when_a_child_is_set: err == nil && anySet && !isLeafType(vtype(originalVal), tuType()) ==> !visnil(originalVal)
+
+// casing functions handed to the flatten mangler: total on every word list (C19 covers their behaviour)
+//@ functype caseconversion.EncodeCasingFunc(f, words) (s)
+//@   pure
+
+//@ func transform.(*FlattenMangler).getTag(f, sf, tags, flattenedPath) (tag, outTags, err)
+//@   props C10
+//@   safety C16
+//@   requires f != nil && sf != nil
+//@   requires wf_constructed_by_NewFlattenMangler: f.tagEncodeCasing != nil
+
+//@ func transform.(*FlattenMangler).flattenStruct(f, fieldPrefix, tagPrefix, fieldPath, sf) (out, err)
+//@   props C10 C11
+//@   safety C16
+//@   requires f != nil && sf.Type != nil && kind(stripPtr(sf.Type)) == Struct
+//@   requires wf_constructed_by_NewFlattenMangler: f.tagEncodeCasing != nil && f.nameEncodeCasing != nil
+//@   requires wf_package_initialised: tuType() != nil && kind(tuType()) == Interface
+//@   decreases srank(sf.Type)
+//@   loop 0:
+//@     invariant 0 <= i && i <= numField(ft) && ft == stripPtr(sf.Type) && kind(ft) == Struct
+//@     invariant C10_one_output_field_per_leaf_so_far: len(out) == leafSum(ft, i, tuType())
+//@   ensures C10_one_output_field_per_leaf: err == nil ==> len(out) == leafSum(stripPtr(sf.Type), numField(stripPtr(sf.Type)), tuType())
+
+//@ func transform.(*FlattenMangler).Mangle(f, sf) (out, err)
+//@   props C10 C11
+//@   safety C16
+//@   requires f != nil && sf.Type != nil
+//@   requires wf_constructed_by_NewFlattenMangler: f.tagEncodeCasing != nil && f.nameEncodeCasing != nil
+//@   requires wf_package_initialised: tuType() != nil && kind(tuType()) == Interface
+//@   ensures C10_one_output_field_per_leaf: err == nil ==> len(out) == leafCount(sf.Type, tuType())
+//@   ensures C10_only_nilable_fields_are_flattened: err == nil ==> isNilableKind(kind(sf.Type))
+
+//@ func transform.(*FlattenMangler).Unmangle(f, sf, vs) (v, err)
+//@   props C10 C11
+//@   safety C16
+//@   requires sf.Type != nil
+//@   requires wf_package_initialised: tuType() != nil && kind(tuType()) == Interface
+//@   requires C10_pointerified_shape: flatOK(sf.Type, tuType())
+//@   requires C10_at_least_one_value_per_leaf: len(vs) >= leafCount(sf.Type, tuType())
+//@   requires C10_values_are_valid: forall k int :: {vs[k].Value} 0 <= k && k < len(vs) ==> valid(vs[k].Value) && vtype(vs[k].Value) != nil
+//@   modifies rh
+//@   ensures C10_result_has_the_original_field_type: valid(v) && vtype(v) == sf.Type
+//@   ensures C10_exactly_one_value_per_leaf: err == nil ==> len(vs) == leafCount(sf.Type, tuType())
